@@ -49,11 +49,13 @@ Qed.
 
 (* tactics for the handler bodies: name the result of the next closed send_chunk_or_dataless *)
 Ltac solve_uok :=
-  first [ assumption
-        | apply set_q_last_ok; [solve_uok|assumption]
-        | apply move_q_to_qs_ok; solve_uok
-        | apply process_downstream_ack_ok; solve_uok
-        | apply getu_ok; assumption ].
+  lazymatch goal with
+  | H : user_ok ?u |- user_ok ?u => exact H
+  | |- user_ok (?u <| u_q := ?q |> <| u_last := ?n |>) => apply set_q_last_ok; [solve_uok|assumption]
+  | |- user_ok (?u <| u_qs := _ |> <| u_qs_new := true |> <| u_q := _ |>) => apply move_q_to_qs_ok; solve_uok
+  | |- user_ok (process_downstream_ack _ _ _) => apply process_downstream_ack_ok; solve_uok
+  | |- user_ok (getu _ _) => apply getu_ok; assumption
+  end.
 
 Ltac step_scd :=
   match goal with
@@ -93,23 +95,35 @@ Qed.
 
 (* ---- Section with the oracles ---------------------------------------------------------------- *)
 
-Section Oracles.
-Variable login : list N -> N -> list N.
-Variable zc : list N -> list N.
-Variable unz : list N -> option (list N).
-(* uncompress(out, &outlen = 64K, ...) never reports more than the room it was given *)
-Hypothesis unz_bound : forall b p, unz b = Some p -> (length p <= K64)%nat.
-
 Lemma raw_frame_len cmd userid data : (length (raw_frame cmd userid data) <= K4096)%nat.
 Proof.
   unfold raw_frame. rewrite !app_length, !firstn_length. cbn [length]. unfold K4096. lia.
 Qed.
 
+(* results with the index-dependent invariant (slot k may hold a raw frame in transit) *)
+Definition res_okQ (Q : nat -> pkt -> Prop) (st : sstate) (r : sstate * list out) : Prop :=
+  sok Q (fst r) /\ length (fst r) = length st /\ outs_ok (snd r).
+
+Lemma send_held_okQ Q st t : sok Q st -> (forall j, Q j pkt0) -> res_okQ Q st (send_held st t).
+Proof.
+  intros H H0. unfold send_held. cbv zeta.
+  pose proof (sok_getu Q st t H H0) as Hu.
+  destruct (negb (h_id (u_qs (getu st t)) =? 0)).
+  - pose proof (scd_ok (getu st t) WQS Hu) as [Hx Ho].
+    destruct (send_chunk_or_dataless (getu st t) WQS) as [[x o] b]. cbn [fst snd] in *.
+    split; [|split]; cbn [fst snd]; [apply sok_upd; auto|apply upd_length|assumption].
+  - destruct (negb (h_id (u_q (getu st t)) =? 0)).
+    + pose proof (scd_ok (getu st t) WQ Hu) as [Hx Ho].
+      destruct (send_chunk_or_dataless (getu st t) WQ) as [[x o] b]. cbn [fst snd] in *.
+      split; [|split]; cbn [fst snd]; [apply sok_upd; auto|apply upd_length|assumption].
+    + split; [|split]; cbn [fst snd]; [assumption|reflexivity|constructor].
+Qed.
+
 Lemma send_held_ok st t : state_ok st -> res_ok st (send_held st t).
 Proof.
-  intros H. unfold send_held. cbv zeta.
-  pose proof (getu_ok st t H) as Hu.
-  repeat step_if; try step_scd; try (apply res_ok_upd; auto); try (apply res_ok_same; solve_outs).
+  intros H. apply sok_state_ok in H.
+  destruct (send_held_okQ (fun _ => in_ok) st t H (fun _ => pkt0_in_ok)) as (Ha & Hb & Hc).
+  repeat split; [apply sok_state_ok, Ha|assumption|assumption].
 Qed.
 
 Lemma find_user_by_ip_from_lt st : forall ip now i t, find_user_by_ip_from st ip now i = Some t ->
@@ -121,31 +135,51 @@ Proof.
   - apply IH in H. cbn [length]. lia.
 Qed.
 
-Lemma handle_full_packet_ok st now userid : state_ok st -> res_ok st (handle_full_packet unz st now userid).
+Section OraclesA.
+Variable unz : list N -> option (list N).
+(* uncompress(out, &outlen = 64K, ...) never reports more than the room it was given *)
+Hypothesis unz_bound : forall b p, unz b = Some p -> (length p <= K64)%nat.
+
+Lemma handle_full_packet_okw st now userid : sok (Qw userid) st -> res_ok st (handle_full_packet unz st now userid).
 Proof.
   intros H. unfold handle_full_packet. cbv zeta.
-  set (raw := firstn _ _).
-  assert (Hin : forall x, user_ok x -> user_ok (x <| u_in := (u_in x) <| p_len := 0 |> <| p_offset := 0 |> |>)).
+  set (raw := firstn _ _). clearbody raw.
+  assert (Hin : forall x, user_ok_gen in_okw x -> user_ok (x <| u_in := (u_in x) <| p_len := 0 |> <| p_offset := 0 |> |>)).
   { intros x Hx. uok Hx. destruct I_in. constructor; cbn; try lia; assumption. }
-  assert (G : forall r, res_ok st r -> res_ok st (let '(st1, outs) := r in
+  assert (G : forall r, res_okQ (Qw userid) st r -> res_ok st (let '(st1, outs) := r in
               (upd st1 userid (fun x => x <| u_in := (u_in x) <| p_len := 0 |> <| p_offset := 0 |> |>), outs))).
   { intros [st1 outs] (Ha & Hb & Hc). cbn [fst snd] in *. repeat split; cbn [fst snd].
-    - apply upd_ok; assumption.
+    - apply sok_state_ok. intros j u Hu. destruct (Nat.eq_dec j userid) as [->|Hne].
+      + destruct (nth_error st1 userid) as [u0|] eqn:E.
+        * rewrite (upd_same _ st1 userid u0 E) in Hu. inversion Hu; subst. apply Hin.
+          specialize (Ha userid u0 E). unfold Qw in Ha. rewrite Nat.eqb_refl in Ha. exact Ha.
+        * rewrite (upd_none _ st1 userid E) in Hu. discriminate.
+      + rewrite upd_other in Hu by exact Hne. specialize (Ha j u Hu). unfold Qw in Ha.
+        destruct (j =? userid)%nat eqn:E; [apply Nat.eqb_eq in E; congruence|exact Ha].
     - rewrite upd_length. assumption.
     - assumption. }
   apply G.
-  destruct (unz raw) as [ip|] eqn:Eu; [|apply res_ok_same; [assumption|constructor]].
-  destruct (find_user_by_ip st _ now) as [t|]; [|apply res_ok_same; [assumption|]].
+  assert (Rsame : forall o, outs_ok o -> res_okQ (Qw userid) st (st, o)) by (intros o Ho; split; [|split]; cbn [fst snd]; [assumption|reflexivity|assumption]).
+  destruct (unz raw) as [ip|] eqn:Eu; [|apply Rsame; constructor].
+  set (fu := if (24 <=? length ip)%nat then _ else None). clearbody fu.
+  destruct fu as [t|]; [|apply Rsame].
   - destruct (u_conn (getu st t)).
-    + apply res_ok_same; [assumption|]. constructor; [|constructor]. cbn. apply raw_frame_len.
+    + apply Rsame. constructor; [|constructor]. cbn. apply raw_frame_len.
     + destruct (p_len (u_out (getu st t)) =? 0).
-      * pose proof (send_held_ok (upd st t (fun x => start_new_outpacket x raw)) t) as Hs.
+      * pose proof (send_held_okQ (Qw userid) (upd st t (fun x => start_new_outpacket x raw)) t) as Hs.
         destruct Hs as (Ha & Hb & Hc).
-        { apply upd_ok; [assumption|]. intros x Hx. apply start_new_outpacket_ok, Hx. }
-        rewrite upd_length in Hb. repeat split; assumption.
-      * apply res_ok_upd; [assumption| |constructor]. intros x Hx. apply save_to_outpacketq_ok, Hx.
+        { apply sok_upd; [assumption|]. intros x Hx. apply start_new_outpacket_ok, Hx. }
+        { apply Qw_pkt0. }
+        rewrite upd_length in Hb. split; [|split]; assumption.
+      * split; [|split]; cbn [fst snd]; [|apply upd_length|constructor].
+        apply sok_upd; [assumption|]. intros x Hx. apply save_to_outpacketq_ok, Hx.
   - constructor; [|constructor]. cbn. eapply unz_bound, Eu.
 Qed.
+
+Lemma handle_full_packet_ok st now userid : state_ok st -> res_ok st (handle_full_packet unz st now userid).
+Proof. intros H. apply handle_full_packet_okw, sok_weaken, H. Qed.
+
+End OraclesA.
 
 (* ---- reset_session / claim -------------------------------------------------------------------- *)
 
@@ -178,7 +212,7 @@ Lemma str_lens : (length s_BADIP <= K4096 /\ length s_BADLEN <= K4096 /\ length 
                  length s_BADFRAG <= K4096 /\ length s_LNAK <= K4096)%nat.
 Proof. unfold K4096. cbn. lia. Qed.
 
-Ltac small_len := unfold K4096, s_BADIP, s_BADLEN, s_BADCODEC, s_BADFRAG, s_LNAK; cbn [length]; lia.
+Ltac small_len := unfold K4096, s_BADIP, s_BADLEN, s_BADCODEC, s_BADFRAG, s_LNAK; cbn [length app]; lia.
 
 Lemma handle_ping_ok c st now q unpacked : state_ok st -> hq_ok q ->
   res_ok st (handle_ping c st now q unpacked).
@@ -279,7 +313,7 @@ Proof.
   - split; [|intros _; cbn; lia]. uok H. destruct I_in. constructor; cbn; try lia; assumption.
   - assert (E4 : (Z.of_N up_frag <=? p_fragment (u_in u1))%Z = false).
     { destruct (up_seq =? p_seqno (u_in u1)); [cbn in E1; exact E1|discriminate]. }
-    pose proof (uo_in _ H) as Hin. destruct Hin.
+    pose proof (uo_in _ _ H) as Hin. destruct Hin.
     split; [|intros _; cbn; lia]. uok H. constructor; cbn; try lia; assumption.
 Qed.
 
@@ -294,6 +328,11 @@ Proof.
   uok H. destruct I_in. constructor; cbn; try lia; try assumption.
   rewrite app_length, firstn_length, app_length, repeat_length. unfold K64 in *. lia.
 Qed.
+
+Section OraclesB.
+Variable unz : list N -> option (list N).
+(* uncompress(out, &outlen = 64K, ...) never reports more than the room it was given *)
+Hypothesis unz_bound : forall b p, unz b = Some p -> (length p <= K64)%nat.
 
 Lemma handle_data_eq c st now q inb dl :
   handle_data unz c st now q inb dl =
@@ -389,7 +428,7 @@ Proof.
   destruct Hst1 as [Hst1 HL1]. clearbody st1.
   set (r2 := if upstream_ok && _ then handle_full_packet unz st1 now i else (st1, [])).
   assert (Hr2 : res_ok st1 r2).
-  { subst r2. destruct (upstream_ok && _); [apply handle_full_packet_ok, Hst1|apply res_ok_same; [assumption|constructor]]. }
+  { subst r2. destruct (upstream_ok && _); [apply (handle_full_packet_ok unz unz_bound), Hst1|apply res_ok_same; [assumption|constructor]]. }
   destruct r2 as [st2 o0]. destruct Hr2 as (Hst2 & HL2 & Ho0). cbn [fst snd] in *.
   pose proof (getu_ok st2 i Hst2) as Hu4. set (u4 := getu st2 i) in *. clearbody u4.
   assert (G : forall x o, user_ok x -> outs_ok o -> res_ok st (upd st2 i (fun _ => x), o0 ++ o)).
@@ -399,5 +438,5 @@ Proof.
     (apply G; [solve_uok|solve_outs]).
 Qed.
 
-End Oracles.
+End OraclesB.
 (* EOF *)
